@@ -1,6 +1,6 @@
 """Property -> rules table (DESIGN §4.0)."""
 
-RULE_MODULES = ["r_ack", "r_quota", "r_key", "r_exits", "r_flow", "r_poll", "r_panic", "r_codec_tx", "r_codec_rx"]
+RULE_MODULES = ["r_ack", "r_quota", "r_key", "r_exits", "r_flow", "r_poll", "r_panic", "r_codec_tx", "r_codec_rx", "r_more"]
 
 TRUST = [
     "rustc nightly builds mir_built faithfully from the working tree (same front end as the real build)",
@@ -10,7 +10,7 @@ TRUST = [
 
 PROPS = {
     "C05": {
-        "rules": ["KEY", "LOOKUP", "FIFO", "REGISTRATION", "MSGKIND", "IDALLOC", "RSP-VARIANT", "SHORTFORM-EXACT", "THRESH", "HANDSHAKE-QOS2", "BUFFERED", "ACCUMULATE"],
+        "rules": ["KEY", "LOOKUP", "FIFO", "REGISTRATION", "MSGKIND", "IDALLOC", "RSP-VARIANT", "SHORTFORM-EXACT", "THRESH", "HANDSHAKE-QOS2", "BUFFERED", "REPARSE", "MINHDR", "ACCUMULATE"],
         "filters": {"IDALLOC": r":rmw|:injective|floor", "SHORTFORM-EXACT": r"AckRx|floor", "THRESH": r"ContextHandle|floor", "HANDSHAKE-QOS2": r"pubrel-after-good|pubrel-always|floor",
                     "ACCUMULATE": r"Suback|Unsuback|AckRx|floor"},
         "explanation": "Static rules over MIR: KEY (symbolic key expressions of tx_action_id / rx_action_id agree per request->acknowledgement pair of the standard, injective bit layout), "
@@ -21,134 +21,135 @@ PROPS = {
         "assumptions": TRUST,
     },
     "C08": {
-        "rules": ["ACK-TABLE", "ACK-BODY", "ACK-CTRL", "ACK-COUNT", "WRITE", "BUFFERED", "REPEATABLE"],
+        "rules": ["ACK-TABLE", "ACK-BODY", "ACK-CTRL", "ACK-COUNT", "WRITE", "BUFFERED", "REPARSE", "MINHDR", "REPEATABLE", "HANDLER-AWAITS"],
         "filters": {"WRITE": r"asyncwrite|write_all|site:ack|floor", "REPEATABLE": r"PublishRx|floor"},
         "explanation": "Per-path effect count and control-dependence analysis of the inbound handler's PUBLISH and PUBREL arms on MIR: reply table, identifier provenance, "
-                       "acknowledgement decisions may depend only on packet type / QoS / packet identifier, exactly the prescribed acknowledgement on every normal path, one write per ack().",
+                       "acknowledgement decisions may depend only on packet type / QoS / packet identifier, exactly the prescribed acknowledgement on every normal path, one write per ack(). The handlers of the context task await nothing but transport writes; no bounded channel towards the application exists (HANDLER-AWAITS).",
         "not_decided": "nothing material: the property is a per-path effect count in one handler (wire order follows from acknowledgements being awaited in place by the single context task)",
         "assumptions": TRUST,
     },
     "C09": {
-        "rules": ["Q2DEDUP", "ACK-TABLE", "ACK-COUNT", "ACK-CTRL", "FIFO", "ADAPTER", "BUFFERED"],
+        "rules": ["Q2DEDUP", "ACK-TABLE", "ACK-COUNT", "ACK-CTRL", "FIFO", "ADAPTER", "BUFFERED", "REPARSE", "MINHDR"],
         "filters": {"FIFO": r"unreleased|floor", "ACK-COUNT": r"arm=Publish|floor", "ACK-CTRL": r"Pubrec|floor"},
         "explanation": "Necessary structural condition on MIR: delivery of an inbound QoS 2 PUBLISH must be control dependent on a membership test of Session-owned state keyed by the packet identifier, "
-                       "with add on first delivery and removal in the PUBREL arm, record and delivery before any suspension point; PUBREC/PUBCOMP reply table; a re-delivery is still answered with PUBREC (ACK-COUNT / ACK-CTRL of the PUBLISH arm).",
+                       "with add on first delivery and removal in the PUBREL arm, record and delivery before any suspension point; PUBREC/PUBCOMP reply table; a re-delivery is still answered with PUBREC (ACK-COUNT / ACK-CTRL of the PUBLISH arm). The release of the identifier does not depend on the PUBREL's reason code (Q2DEDUP release-independent-of-reason).",
         "not_decided": "history-level exactness of the set once it exists (beyond the add/test/remove discipline)",
         "assumptions": TRUST,
     },
     "C10": {
-        "rules": ["QUOTA-WRITERS", "QUOTA-DEC", "QUOTA-INC", "FIRST-RESPONSE", "DEFAULTS", "SHORTFORM-EXACT", "HANDSHAKE-QOS2", "BUFFERED", "DECODE-BE"],
-        "filters": {"FIRST-RESPONSE": r"handle_connack-first|floor", "DEFAULTS": r"ReceiveMaximum|receive_maximum|floor", "SHORTFORM-EXACT": r"AckRx|floor", "HANDSHAKE-QOS2": r"pubrel-always|pubrel-after-good|floor"},
+        "rules": ["QUOTA-WRITERS", "QUOTA-DEC", "QUOTA-INC", "FIRST-RESPONSE", "DEFAULTS", "SHORTFORM-EXACT", "HANDSHAKE-QOS2", "BUFFERED", "REPARSE", "MINHDR", "DECODE-BE", "HANDLE-ERRS", "FULLFORM"],
+        "filters": {"HANDLE-ERRS": r"publish|floor", "FULLFORM": r"ConnackRx|floor", "FIRST-RESPONSE": r"handle_connack-first|floor", "DEFAULTS": r"ReceiveMaximum|receive_maximum|floor", "SHORTFORM-EXACT": r"AckRx|floor", "HANDSHAKE-QOS2": r"pubrel-always|pubrel-after-good|floor"},
         "explanation": "Who-may-write and guarded-arithmetic rules over Connection.send_quota on MIR: writers, decrement guarded by F != 0 with a refusing F == 0 edge, one decrement before every PUBLISH write, "
-                       "increments bounded by F < M, set of releasing acknowledgements = {PUBACK, PUBCOMP, PUBREC >= 0x80}, release independent of lookup/delivery.",
+                       "increments bounded by F < M, set of releasing acknowledgements = {PUBACK, PUBCOMP, PUBREC >= 0x80}, release independent of lookup/delivery. R is written by handle_connack only, from the CONNACK's Receive Maximum and nothing else (no other field, constant, min / max) (QUOTA-WRITERS M-only-from-connack); a handle operation never builds QuotaExceeded by itself (HANDLE-ERRS); CONNACK is decoded to its end (FULLFORM).",
         "not_decided": "numeric claim over concrete long histories (follows from the invariant F + outstanding = M implied by the rules, not separately explored)",
         "assumptions": TRUST,
         "arith_rules": [],
     },
     "C12": {
-        "rules": ["MAXSIZE-PRED", "MAXSIZE-FIRST", "MAXSIZE-SOURCE", "FIRST-RESPONSE", "WRITE", "DECODE-BE", "OWN"],
-        "filters": {"FIRST-RESPONSE": r"handle_connack-first|floor", "WRITE": r"asyncwrite|write_all|floor", "DECODE-BE": r"u32|floor", "OWN": r"response-awaited|await-result-propagated|floor"},
+        "rules": ["MAXSIZE-PRED", "MAXSIZE-FIRST", "MAXSIZE-SOURCE", "FIRST-RESPONSE", "WRITE", "DECODE-BE", "OWN", "HANDLE-ERRS", "FULLFORM"],
+        "filters": {"HANDLE-ERRS": r"no-context-verdict|floor", "FULLFORM": r"ConnackRx|floor", "FIRST-RESPONSE": r"handle_connack-first|floor", "WRITE": r"asyncwrite|write_all|floor", "DECODE-BE": r"u32|floor", "OWN": r"response-awaited|await-result-propagated|floor"},
         "explanation": "Decision table of validate_packet_size by path enumeration (accept iff absent or len <= max), dominance of the size check over every effect in each outbound arm, "
-                       "effect-freedom of the refusing edge, identity of checked and written slice, single source of the limit (CONNACK).",
+                       "effect-freedom of the refusing edge, identity of checked and written slice, single source of the limit (CONNACK). The stored limit is the announced value or none, never a constant standing in for 'no limit' (MAXSIZE-SOURCE source-pure); a packet handed to the transport in pieces is split losslessly (WRITE write_all-pieces); a handle operation never builds MaximumPacketSizeExceeded by itself (HANDLE-ERRS).",
         "not_decided": "that L is the encoder's true output length (C01)",
         "assumptions": TRUST,
     },
     "C06": {
-        "rules": ["HANDSHAKE-DUP", "HANDSHAKE-QOS2", "THRESH", "MSGKIND", "QUOTA-DEC", "SHORTFORM-EXACT", "LOOKUP", "ENCODE-ONCE", "BUFFERED", "WRITE", "LM-PRIM"],
+        "rules": ["HANDSHAKE-DUP", "HANDSHAKE-QOS2", "THRESH", "MSGKIND", "QUOTA-DEC", "SHORTFORM-EXACT", "LOOKUP", "ENCODE-ONCE", "BUFFERED", "REPARSE", "MINHDR", "WRITE", "LM-PRIM", "KEY"],
         "filters": {"QUOTA-DEC": r"quota-read-only-for-publish|zero-edge-refuses|floor", "SHORTFORM-EXACT": r"AckRx|floor", "ENCODE-ONCE": r"publish|floor", "WRITE": r"asyncwrite|write_all|floor",
                     "LM-PRIM": r"UTF8String|Payload|Binary|NonZero|u16|floor"},
         "explanation": "Dominance rules on MIR: the DUP bit is set on the stored copy only (after the completed first write, before the push to the retransmission queue), the PUBREL identifier derives from the received PUBREC, "
-                       "the PUBREL enqueue is dominated by the Continue edge of the `?` over the PUBREC reason check, QoS 0 completes after its write, reason thresholds are exactly 0x80 with Err on the failing side, one PUBLISH enqueue per QoS branch.",
+                       "the PUBREL enqueue is dominated by the Continue edge of the `?` over the PUBREC reason check, QoS 0 completes after its write, reason thresholds are exactly 0x80 with Err on the failing side, one PUBLISH enqueue per QoS branch. KEY (the exchange key keeps every bit of the packet identifier: shifts happen on the widened value).",
         "not_decided": "interleavings with other operations and delayed polling between the two QoS 2 phases (schedules); content equality of topic/payload (C01)",
         "assumptions": TRUST,
     },
     "C07": {
-        "rules": ["SUBREG", "DISPATCH", "ADAPTER", "FIFO", "MULTI", "OWN", "IDALLOC", "UPROPS", "ACCUMULATE", "REPEATABLE", "Q2DEDUP", "BUFFERED"],
-        "filters": {"MULTI": r"PublishRx", "OWN": r"no-explicit-close|sender-never-cloned|floor", "IDALLOC": r"subscription_identifier|floor", "ACCUMULATE": r"PublishRx|floor", "REPEATABLE": r"PublishRx|floor",
-                    "Q2DEDUP": r"independent-of-dup|deliver-guarded|deliver-unguarded|floor"},
+        "rules": ["SUBREG", "DISPATCH", "ADAPTER", "FIFO", "MULTI", "OWN", "IDALLOC", "UPROPS", "ACCUMULATE", "REPEATABLE", "Q2DEDUP", "BUFFERED", "REPARSE", "MINHDR", "HANDLER-AWAITS"],
+        "filters": {"HANDLER-AWAITS": r"inbound|bounded-channel|floor", "MULTI": r"PublishRx", "OWN": r"no-explicit-close|sender-never-cloned|floor", "IDALLOC": r"subscription_identifier|floor", "ACCUMULATE": r"PublishRx|floor", "REPEATABLE": r"PublishRx|floor",
+                    "Q2DEDUP": r"independent-of-dup|deliver-guarded|deliver-unguarded|deliver-before-suspension|floor"},
         "explanation": "Registration of (subscription identifier, stream) on every path that writes the SUBSCRIBE; delivery receiver = keyed lookup by the received subscription identifier; payload moved whole (no field write, no &mut use); "
-                       "subscriptions removed only on the failed-delivery edge; who-may-mutate table; decision table of SubscribeStream::poll_next by path enumeration.",
+                       "subscriptions removed only on the failed-delivery edge; who-may-mutate table; decision table of SubscribeStream::poll_next by path enumeration. Delivery precedes every suspension point of the arm (Q2DEDUP deliver-before-suspension); the handlers await nothing but transport writes and the queues towards the application are unbounded (HANDLER-AWAITS).",
         "not_decided": "order / exactly-once over histories with lagging or dropped streams (executions); a PUBLISH carrying several Subscription Identifiers (known finding, codec keeps one)",
         "assumptions": TRUST,
     },
     "C11": {
-        "rules": ["IDALLOC", "SUBREG"],
+        "rules": ["IDALLOC", "SUBREG", "VARINT-ENC", "OPTS-LOSSLESS"],
+        "filters": {"OPTS-LOSSLESS": r"identifier|floor"},
         "explanation": "Every identifier handed to a request builder derives from one atomic read-modify-write on the shared counter (no load/store pair); zero-ness dataflow proves the value reaching NonZero::try_from(..).unwrap() non-zero; "
-                       "counter created once with value 1; identifier setters are not public; one fetch_add on sub_id per subscribe(); nothing but fetch_add(1) ever writes a counter (no fetch_sub / store anywhere in the crate).",
+                       "counter created once with value 1; identifier setters are not public; one fetch_add on sub_id per subscribe(); nothing but fetch_add(1) ever writes a counter (no fetch_sub / store anywhere in the crate). The subscription identifier is encoded by an encoder whose byte layout is decided per stored form (VARINT-ENC); option setters do not alter values (OPTS-LOSSLESS).",
         "not_decided": "uniqueness among outstanding operations over histories (implied by a sequential wrapping counter under the stated proviso); thread schedules beyond atomicity of the RMW",
         "assumptions": TRUST,
     },
     "C13": {
-        "rules": ["EXITS", "EXITS-EXPLICIT", "EXITS-OK", "EXITS-END", "FIRST-RESPONSE", "THRESH", "CONV", "WRITE", "SHORTFORM-EXACT", "REPARSE", "BUFFERED", "RXHDR"],
-        "filters": {"WRITE": r"WRITE:site:|floor", "SHORTFORM-EXACT": r"DisconnectRx|floor"},
+        "rules": ["EXITS", "EXITS-EXPLICIT", "EXITS-OK", "EXITS-END", "FIRST-RESPONSE", "THRESH", "CONV", "WRITE", "SHORTFORM-EXACT", "REPARSE", "BUFFERED", "MINHDR", "RXHDR", "FRAMER-FRESH", "OWN", "FULLFORM"],
+        "filters": {"FULLFORM": r"ConnackRx|floor", "WRITE": r"WRITE:site:|floor", "SHORTFORM-EXACT": r"DisconnectRx|floor", "OWN": r"no-explicit-close|floor"},
         "explanation": "Complete table of the exits of Context::run (recursively through handle_packet / handle_message / ack / retransmit), each classified by the residual error type of its `?` and what produced it; explicit returns; "
-                       "required Ok(()) exits and what they are control dependent on; the end of the request queue / packet stream ends run() at once (EXITS-END); decoders of run()-phase packets test the whole fixed-header byte (RXHDR); buffered packets are served before the next read (BUFFERED); first-response table of connect()/authorize(); reason thresholds; From<..> for MqttError variant table.",
+                       "required Ok(()) exits and what they are control dependent on; the end of the request queue / packet stream ends run() at once (EXITS-END); decoders of run()-phase packets test the whole fixed-header byte (RXHDR); buffered packets are served before the next read (BUFFERED); first-response table of connect()/authorize(); reason thresholds; From<..> for MqttError variant table. No handle operation closes the request queue (OWN no-explicit-close); framing state never outlives its transport, so the CONNACK of a new connection is framed from its own bytes (FRAMER-FRESH); CONNACK is decoded to its end (FULLFORM).",
         "not_decided": "'at every reachable session state': the exits do not consult session state, which is stated rather than explored",
         "assumptions": TRUST,
     },
     "C14": {
-        "rules": ["OWN", "CONV", "ADAPTER", "RESUME-ORDER", "COMPLETE-ERR"],
+        "rules": ["OWN", "CONV", "ADAPTER", "RESUME-ORDER", "COMPLETE-ERR", "HANDLE-ERRS"],
         "explanation": "Ownership discipline: no leak primitive in the crate, senders never cloned, Session collections own their senders directly, Canceled/TrySendError map to ContextExited, every handle operation propagates a failed enqueue and awaits only its own oneshot receiver, "
-                       "the stream adapter maps inner end-of-stream to end-of-stream, reset_session clears every collection; the context sends Err(..) on a response channel only for the two local refusals (COMPLETE-ERR), a cancelled channel is reported as ContextExited only.",
+                       "the stream adapter maps inner end-of-stream to end-of-stream, reset_session clears every collection; the context sends Err(..) on a response channel only for the two local refusals (COMPLETE-ERR), a cancelled channel is reported as ContextExited only. A handle operation builds no verdict of the context (QuotaExceeded, MaximumPacketSizeExceeded, SocketClosed, HandleClosed, Disconnected) by itself: such errors reach the caller only through its response channel, so an operation started after the context is gone cannot be answered from stale state (HANDLE-ERRS).",
         "not_decided": "liveness itself (that the wake-up happens) is a property of the channel library (trusted base)",
         "assumptions": TRUST,
     },
     "C15": {
-        "rules": ["EXITS", "EXITS-EXPLICIT", "QUOTA-INC", "DISPATCH", "REGISTRATION", "ENQUEUE-ALWAYS", "FIFO"],
-        "explanation": "No exit of run() is caused by a failed completion or delivery (EXITS classifies every `?`, EXITS-EXPLICIT every explicit error return of the handlers: only a server DISCONNECT != 0); the quota release does not depend on the lookup or on the completion having been delivered; a failed delivery only removes that subscription.",
+        "rules": ["EXITS", "EXITS-EXPLICIT", "QUOTA-INC", "DISPATCH", "REGISTRATION", "ENQUEUE-ALWAYS", "FIFO", "HANDLER-AWAITS", "ACK-CTRL", "ACK-COUNT", "SUBREG"],
+        "explanation": "No exit of run() is caused by a failed completion or delivery (EXITS classifies every `?`, EXITS-EXPLICIT every explicit error return of the handlers: only a server DISCONNECT != 0); the quota release does not depend on the lookup or on the completion having been delivered; a failed delivery only removes that subscription. Acknowledgement decisions do not depend on the delivery outcome (ACK-CTRL / ACK-COUNT: a dropped stream does not suppress the acknowledgement); a subscription identifier is never reused (SUBREG); the handlers never wait for the application (HANDLER-AWAITS).",
         "not_decided": "'other operations complete with their own acknowledgements' under all interleavings (follows from KEY/LOOKUP of C05 once the context keeps running)",
         "assumptions": TRUST,
     },
     "C17": {
-        "rules": ["RESUME-PAIR", "RESUME-EXPIRY", "RESUME-ORDER", "HANDSHAKE-DUP", "FIFO", "LEGAL-ARM", "DEFAULTS"],
+        "rules": ["RESUME-PAIR", "RESUME-EXPIRY", "RESUME-ORDER", "HANDSHAKE-DUP", "FIFO", "LEGAL-ARM", "DEFAULTS", "KEY"],
         "filters": {"FIFO": r"retrasmit_queue|floor", "LEGAL-ARM": r"ConnackRx:SessionExpiryInterval|floor", "DEFAULTS": r"SessionExpiryInterval|session_expiry|floor"},
         "explanation": "Pairing of every class pushed to the retransmission queue with a keyed removal in the arm of its acknowledgement; normalised truth table of session_expired; dominance/ordering of is_reconnect, session_expired, reset_session, retransmit and the select loop in run(); "
-                       "retransmit iterates front to back and awaits each unchanged write; stored copy carries DUP.",
+                       "retransmit iterates front to back and awaits each unchanged write; stored copy carries DUP. The replay write is decided by the iteration alone (RESUME-ORDER replay-unconditional); KEY (removal by a key that keeps every bit of the identifier).",
         "not_decided": "behaviour over disconnection points x histories; wall-clock arithmetic",
         "assumptions": TRUST,
     },
     "C03": {
-        "rules": ["PENDING", "EOS", "MINHDR", "REPARSE", "BUFFERED", "VARINT-ERR", "VARINT-OK", "PANIC", "REARM"],
+        "rules": ["PENDING", "EOS", "MINHDR", "REPARSE", "BUFFERED", "VARINT-ERR", "VARINT-OK", "PANIC", "REARM", "FRAMER-FRESH", "PENDING-PURE"],
         "filters": {"PANIC": r"packet_stream|VarSizeInt as std::convert::TryFrom<&\\\\[u8\\\\]>|ledger-link:MINHDR"},
         "explanation": "Necessary structural clauses of framing on MIR: forward dataflow over RxPacketStream::poll_next proving that Poll::Pending is returned only after an inner poll returned Pending for the same context; "
                        "every Ready(None) control dependent on the transport's own result or a malformed length (read error / 0 bytes into a provably non-empty destination); the gate to the length parse is size >= 2; "
-                       "index and length arithmetic of the reassembly machine discharged site by site in both arithmetic modes (PANIC ledger).",
+                       "index and length arithmetic of the reassembly machine discharged site by site in both arithmetic modes (PANIC ledger). After every read that delivered bytes the size test is passed on every way on and the only next state is the length parse (MINHDR after-read); framing state is written by poll_next and the constructor only, anything else must reset all of it, and set_up gives every transport a freshly built or fully reset framer (FRAMER-FRESH); the read result is classified on the feasible paths (Err and 0 end the stream, only a non-zero count is added); paths that return Pending assign no field of the stream (PENDING-PURE).",
         "not_decided": "'exactly the same packets for every chunking': equality of the emitted sequence over all compositions of the byte stream is a statement about runtime index values; no rule is claimed for it",
         "assumptions": TRUST,
         "arith_rules": ["PANIC"],
         "filters": {"PANIC": r"packet_stream|VarSizeInt as std::convert::TryFrom<&\[u8\]>|ledger-link:MINHDR"},
     },
     "C04": {
-        "rules": ["PANIC", "DECODE-WITNESS", "VARIANT-DOMAIN", "VARINT-GUARD", "VARINT-ERR", "FIRST-RESPONSE", "EXITS", "WRITE", "EOS", "PENDING", "BUFFERED", "REARM", "DECODE-LOOP"],
+        "rules": ["PANIC", "DECODE-WITNESS", "VARIANT-DOMAIN", "VARINT-GUARD", "VARINT-ERR", "FIRST-RESPONSE", "EXITS", "WRITE", "EOS", "PENDING", "BUFFERED", "REPARSE", "MINHDR", "REARM", "DECODE-LOOP", "FRAMER-FRESH"],
         "explanation": "Panic ledger: every panic-capable site (MIR asserts, unwrap/expect, panic!/unreachable!, indexing, curated panicking bytes API) in bodies reachable from the inbound roots is enumerated and discharged by a dominating guard, a direct length comparison, "
-                       "constant folding, the in-memory-length argument or a named ledger entry; fixed-width decoders carry a length witness; partial functions over packet enums are called inside their domain; first-response and run() exits are error returns; transport faults propagate; a decode loop cannot spin on an undecodable item (DECODE-LOOP).",
+                       "constant folding, the in-memory-length argument or a named ledger entry; fixed-width decoders carry a length witness; partial functions over packet enums are called inside their domain; first-response and run() exits are error returns; transport faults propagate; a decode loop cannot spin on an undecodable item (DECODE-LOOP). An error reporting a reason code is built only under a failing edge of the threshold test (THRESH error-only-when-failed, linked from the ledger entries of the debug assertions in the From<..Rx> for ..Error conversions).",
         "not_decided": "non-panicking misbehaviour on garbage beyond what EXITS classifies; panics inside dependencies not in the curated list; ledger entries are reasoned, not proved (each is one named site with a reason)",
         "assumptions": TRUST + ["curated list of panicking methods of the bytes crate (advance, split_to, split_off, get_*, copy_to_bytes, slice)"],
         "arith_rules": ["PANIC"],
     },
     "C16": {
-        "rules": ["PENDING", "REARM", "OWN", "WRITE", "ADAPTER"],
+        "rules": ["PENDING", "REARM", "OWN", "WRITE", "ADAPTER", "PENDING-PURE", "HANDLER-AWAITS"],
         "explanation": "Waker contract on MIR: both hand-written poll functions return Pending only in states where an inner poll returned Pending for the same task context; run() re-arms each select! future in the arm that consumed it; "
-                       "handle operations await only their own oneshot receiver; write futures are awaited in place; the stream adapter forwards Pending from the inner receiver.",
+                       "handle operations await only their own oneshot receiver; write futures are awaited in place; the stream adapter forwards Pending from the inner receiver. Paths of RxPacketStream::poll_next that return Pending assign no field of the stream and touch the buffer only through resize and the read itself (PENDING-PURE); the handlers await nothing but transport writes (HANDLER-AWAITS).",
         "not_decided": "trace equality across polling disciplines (executions under different schedulers); idempotence of the buffer bookkeeping of RxPacketStream under a spurious poll (runtime state)",
         "assumptions": TRUST,
     },
     "C01": {
-        "rules": ["LM", "LM-PRIM", "ORDER", "BITS", "IDS", "LEGAL", "MANDATORY", "SETTER", "WRITE", "MSGKIND", "ENCODE-ONCE", "ENQUEUE-ALWAYS", "VARINT-THRESH", "REGISTRATION"],
+        "rules": ["LM", "LM-PRIM", "ORDER", "BITS", "IDS", "LEGAL", "MANDATORY", "SETTER", "WRITE", "MSGKIND", "ENCODE-ONCE", "ENQUEUE-ALWAYS", "VARINT-THRESH", "REGISTRATION", "OPTS-LOSSLESS", "VARINT-ENC"],
         "filters": {"LEGAL": r"LEGAL:tx:", "MANDATORY": r"Tx|floor"},
         "explanation": "Encoder structure on MIR, for all optional fields / packet types / call sites at once: length mirror (every field written is counted in the remaining / property length it belongs to and vice versa, every counted length prefix is written, "
                        "measured types = written types), item order against the standard, bit layouts of the flag bytes, evaluated packet / property identifiers and fixed headers, legal property sets, mandatory parts (generated build() + validate() error paths), "
-                       "option setters forward to the builder field of the same name and return Self, single writer (write_all over the whole slice, awaited in place), one encode per message buffer, exactly one write per non-refused request, VarSizeInt thresholds; for every primitive with a straight-line encoder the bytes appended by encode() equal byte_len() as a symbolic sum over its fields (LM-PRIM).",
+                       "option setters forward to the builder field of the same name and return Self, single writer (write_all over the whole slice, awaited in place), one encode per message buffer, exactly one write per non-refused request, VarSizeInt thresholds; for every primitive with a straight-line encoder the bytes appended by encode() equal byte_len() as a symbolic sum over its fields (LM-PRIM). The option setters carry the caller's value through moves and checked / widening conversions only (OPTS-LOSSLESS: no floating point, no narrowing cast, no arithmetic on the value); the variable byte integer encoder writes byte j as bits 7j..7j+6 with the continuation bit on all but the last byte, decided by normalising the byte expressions (VARINT-ENC).",
         "not_decided": "that decoding the bytes yields exactly the values supplied for every value (round-trip equality over runtime values, boundary lengths 127/128/16383/...): primitives are covered by the existing boundary tests, the composition is what the rules decide",
         "assumptions": TRUST,
         "filters": {"LEGAL": r"LEGAL:tx:", "MANDATORY": r"Tx|floor"},
     },
     "C02": {
-        "rules": ["LEGAL", "LEGAL-ARM", "IDS", "REASONS", "DEFAULTS", "MANDATORY", "SHORTFORM", "SHORTFORM-EXACT", "MULTI", "ACCESSOR", "PUBID", "BITS", "REPARSE", "VARINT-ERR", "VARINT-OK", "UTF8-BYTES", "ACCUMULATE", "REPEATABLE", "UPROPS", "DECODE-BE", "DECODE-LOOP"],
+        "rules": ["LEGAL", "LEGAL-ARM", "IDS", "REASONS", "DEFAULTS", "MANDATORY", "SHORTFORM", "SHORTFORM-EXACT", "MULTI", "ACCESSOR", "PUBID", "BITS", "REPARSE", "VARINT-ERR", "VARINT-OK", "UTF8-BYTES", "ACCUMULATE", "REPEATABLE", "UPROPS", "DECODE-BE", "DECODE-LOOP", "FRAMER-FRESH", "FULLFORM"],
         "filters": {"LEGAL": r"LEGAL:rx:|floor", "MANDATORY": r"Rx|floor", "BITS": r"publish-decode|type-nibble|floor"},
         "explanation": "Decoder structure on MIR: accepted property set per receive decoder = the standard's legal set (order-free property loop), wire type per property identifier, reason enums = TryFrom<u8> maps = the standard's code sets, "
                        "defaults of absent properties, mandatory parts of inbound packets, shortened forms (tail decodes do not dominate every success exit), multiplicity (collections for repeatable properties), "
-                       "accessors read exactly the field they are named after, PUBLISH header masks / shifts, packet identifier iff QoS > 0; the string decoders validate with the standard library and refuse no string for a byte that occurs in well-formed multi-byte UTF-8 (byte predicates evaluated on all 256 values); builder setters of repeatable items accumulate (ACCUMULATE), a repeatable property is never a reason to refuse the packet (REPEATABLE), UserProperties is append-only (UPROPS), u16 / u32 are assembled big endian (DECODE-BE), decode loops end on the first undecodable item (DECODE-LOOP).",
+                       "accessors read exactly the field they are named after, PUBLISH header masks / shifts, packet identifier iff QoS > 0; the string decoders validate with the standard library and refuse no string for a byte that occurs in well-formed multi-byte UTF-8 (byte predicates evaluated on all 256 values); builder setters of repeatable items accumulate (ACCUMULATE), a repeatable property is never a reason to refuse the packet (REPEATABLE), UserProperties is append-only (UPROPS), u16 / u32 are assembled big endian (DECODE-BE), decode loops end on the first undecodable item (DECODE-LOOP). The packets without a shortened form are decoded to their end on every success path (FULLFORM); framing state never outlives its transport (FRAMER-FRESH).",
         "not_decided": "numeric / value equality of decoded primitives over all inputs, UTF-8 validation itself (std), payloads crossing the receive buffer (runtime values; primitives have boundary tests)",
         "assumptions": TRUST,
         "filters": {"LEGAL": r"LEGAL:rx:|floor", "MANDATORY": r"Rx|floor", "BITS": r"publish-decode|type-nibble|floor"},
